@@ -38,6 +38,18 @@ def _rows(cols):
   return tuple(zip(*cols))
 
 
+MAX_STATE_ROWS = 20000    # no enumerated dataset has more than ~500 rows
+
+
+def _bounded(n):
+  """A state far larger than any dataset is a runaway (e.g. a state merged
+  with itself once per record doubles every time): fail instead of filling
+  the memory of the machine."""
+  if n > MAX_STATE_ROWS:
+    raise OverflowError(
+        f'aggregation state of {n} rows: more than any dataset has')
+
+
 class Rows:
   """The sorted rows of a long result as ONE leaf value.  The library walks a
   list-valued result element by element every time it assembles `agg_result`
@@ -79,6 +91,7 @@ class Bag:
   def merge_states(self, states):
     out = ()
     for s in states:
+      _bounded(len(out) + len(s))
       out = out + tuple(s)
     return out
 
@@ -100,6 +113,7 @@ class BagInPlace(Bag):
   def merge_states(self, states):
     out = []
     for s in states:
+      _bounded(len(out) + len(s))
       out.extend(s)
     return out
 
@@ -136,6 +150,7 @@ class BagRacy(Bag):
   def merge_states(self, states):
     out = _RacyState()
     for s in states:
+      _bounded(len(out.rows) + len(s.rows))
       out.rows = out.rows + s.rows
     return out
 
@@ -155,6 +170,7 @@ class BagMetric:
     self.batches += 1
 
   def merge(self, other):
+    _bounded(len(self.rows) + len(other.rows))
     self.rows.extend(other.rows)
     self.batches += other.batches
 
